@@ -185,6 +185,53 @@ impl Scenario for Twin {
                 let d = gen_table(rng, &self.sw, &format!("t{}", i));
                 self.setup.push(Op::create_table(d));
             }
+            if self.mode == Mode::Restart && self.sw.max_rows_stmt % 2 == 0 {
+                // every persisted value type, with rows that SQL INSERT cannot produce (SMALLINT etc.)
+                self.setup.push(Op::new(Kind::Other, crate::imagegen::TYPED_DDL.to_string()).table("ty"));
+                self.setup.push(Op::new(Kind::Other, format!("<typed rows {}>", rng.next_u64())).table("ty"));
+                if rng.chance(1, 2) {
+                    let col = *rng.pick(&["i", "j", "h", "c", "e", "k", "b"]);
+                    self.setup.push(Op::new(Kind::Other, format!("CREATE INDEX ixty ON ty ({})", col)).table("ty"));
+                }
+            }
+            if self.mode == Mode::Backend && self.sw.big_rows > 0 {
+                // deep-tree flavour: string keys give the disk-backed B+ tree its minimum degree, so a few
+                // dozen distinct keys reach height 3 and single-row UPDATEs of the key exercise leaf
+                // merges, borrows between inner nodes and root collapses
+                self.setup.clear();
+                let def = TableDef {
+                    name: "t0".into(),
+                    cols: vec![
+                        ColDef { name: "c0".into(), ty: Ty::Int, not_null: true },
+                        ColDef { name: "c1".into(), ty: Ty::Str(12), not_null: false },
+                        ColDef { name: "c2".into(), ty: Ty::Int, not_null: false },
+                    ],
+                    pk: vec![0],
+                    ..Default::default()
+                };
+                let ix = IndexDef { name: "ixd".into(), table: "t0".into(), unique: false, cols: vec![("c1".into(), None, false)] };
+                let index_first = rng.chance(1, 2);
+                self.setup.push(Op::create_table(def.clone()));
+                if index_first {
+                    self.setup.push(Op::create_index(ix.clone()));
+                }
+                let n = self.sw.big_rows;
+                let mut start = 0usize;
+                while start < n {
+                    let k = (n - start).min(1 + rng.usize(40));
+                    let rows = (start..start + k)
+                        .map(|i| {
+                            let key = if rng.chance(1, 12) { Lit::Null } else { Lit::Str(format!("k{:03}", if rng.chance(1, 8) { rng.usize(n) } else { (i * 7) % n })) };
+                            vec![Lit::Int(i as i64), key, Lit::Int(rng.range(0, 5))]
+                        })
+                        .collect();
+                    self.setup.push(Op::insert("t0", &[], rows));
+                    start += k;
+                }
+                if !index_first {
+                    self.setup.push(Op::create_index(ix));
+                }
+            }
             self.setup.reverse();
             self.world.next_name = 1;
         }
@@ -198,6 +245,31 @@ impl Scenario for Twin {
         let names = self.world.table_names();
         if names.is_empty() {
             return None;
+        }
+        if self.mode == Mode::Backend && sw.big_rows > 0 && names.iter().any(|n| n == "t0") && !rng.chance(1, 6) {
+            let n = sw.big_rows as i64;
+            let def = self.world.tables["t0"].clone();
+            let key = |rng: &mut Rng| if rng.chance(1, 10) { "NULL".to_string() } else { format!("'k{:03}'", rng.range(0, n + 5)) };
+            let op = match rng.below(10) {
+                0..=5 => Op::update("t0", vec![("c1".into(), key(rng))], Some(format!("c0 = {}", rng.range(0, n)))),
+                6 => Op::update("t0", vec![("c1".into(), key(rng))], Some(format!("c1 = {}", key(rng)))),
+                7 => Op::insert("t0", &[], vec![vec![Lit::Int(rng.range(0, n + 40)), Lit::Raw(key(rng)), Lit::Int(rng.range(0, 5))]]),
+                8 => Op::delete("t0", Some(format!("c0 = {}", rng.range(0, n)))),
+                _ => Op::update("t0", vec![("c1".into(), key(rng))], Some(format!("c0 BETWEEN {} AND {}", rng.range(0, n), rng.range(0, n)))),
+            };
+            let k = rng.usize(3);
+            let ixs: Vec<IndexDef> = self.world.indexes_of("t0").into_iter().cloned().collect();
+            for _ in 0..k {
+                let p = match ixs.first() {
+                    Some(ix) => probe::index_biased(rng, &sw, &self.suts[0], &def, ix, self.probe_opts()),
+                    None => probe::single_table(rng, &sw, &self.suts[0], &def, self.probe_opts()),
+                };
+                let mut o = Op::new(Kind::Probe, p.sql);
+                o.fault = if p.total_order { "total".into() } else { String::new() };
+                o.name = Some(p.shape.to_string());
+                self.pending_probes.push(o);
+            }
+            return Some(op);
         }
         let def = self.world.tables[rng.pick(&names)].clone();
         let o = PredOpts { truthy: false, mixed_numeric: !sw.guard("no_mixed_numeric_literals"), allow_or_not: true };
@@ -311,6 +383,18 @@ impl Scenario for Twin {
                         cx.violation(&format!("{}_roundtrip_failed", oracle_state), format!("save/load ({:?}) of a valid database failed: {}", fmt, e))
                     }
                 }
+            }
+            Kind::Other if op.sql.starts_with("<typed rows ") => {
+                let seed: u64 = op.sql.trim_start_matches("<typed rows ").trim_end_matches('>').parse().unwrap_or(0);
+                let rows = crate::imagegen::typed_rows(&mut Rng::fork(seed, 0x7E));
+                for s in self.suts.iter_mut() {
+                    for r in &rows {
+                        let _ = s.db.insert_row("TY", vibesql_storage::Row::new(r.clone()));
+                    }
+                }
+                cx.state_changes += 1;
+                cx.reach("typed_rows");
+                Step::Continue
             }
             Kind::CreateIndex | Kind::DropIndex if self.mode == Mode::Indexes => {
                 // only twin 0 gets user-defined indexes
